@@ -25,7 +25,7 @@ def plan(ctx):
         if ctx.thorough:
             for sp in ("S2", "P2", "P3", "T3", "T4", "T5", "T6", "D7", "D8", "D8x8", "D2x16", "PK"):
                 out.append((kind, "K0", sp, "float"))
-            for K in spaces.ALLK[1:]:
+            for K in spaces.ALLK[1:] + ["KG0"]:
                 for sp in ("S2", "P2", "P3", "T3", "T4"):
                     out.append((kind, K, sp, "float"))
             for K in spaces.ALLK:
@@ -39,6 +39,9 @@ def plan(ctx):
                     out.append((kind, K, sp, "float"))
             for K in ("K6", "K7", "K8"):  # custom gamma callbacks with >= 4 teams
                 out.append((kind, K, "T4|V3", "float"))
+            for sp in ("S2", "T3|V6", "P3"):  # gamma = 0 (for all / for the best-placed teams only): the variance step vanishes, the mean step must not
+                out.append((kind, "KG0", sp, "float"))
+                out.append((kind, "KG1", sp, "float"))
             for sp in ("S2", "T3|V6"):
                 out.append((kind, "K0", sp, "mp"))
     return out
